@@ -1,7 +1,7 @@
 (* C11 - any request reaches the NCP intact, fragments contiguous, each awaiting its ACK. *)
 From Coq Require Import NArith List Bool.
 From ZB Require Import Api.Api Api.ApiProofs Base.Bytes Link.LinkSpec Link.LinkSpecProofs Link.Frame Link.Frag Link.FrameProofs
-  Link.FragProofs Link.Reasm Link.ReasmProofs Link.RxSpec gen.GenConsts.
+  Link.FragProofs Link.Reasm Link.ReasmProofs Link.RxSpec Link.EndToEnd Api.ApiWire gen.GenConsts.
 Import ListNotations.
 Open Scope N_scope.
 
@@ -42,6 +42,40 @@ Print Assumptions C11_ncp_reassembles_the_request.
 Theorem C11_ncp_parses_clean_wire : forall ws, Forall wf ws -> spec_parse (concat (map spec_encode ws)) = ws.
 Proof. exact spec_parse_clean_stream. Qed.
 Print Assumptions C11_ncp_parses_clean_wire.
+
+(* ---------------------------------------------------------------------------------------------------------------
+   END TO END.  (1) Link level: for ANY table of valid messages and ANY schedule of writes in which acknowledgement
+   frames are interspersed freely and data frames form contiguous fragment runs (fragment 0 may start a run at any
+   time, fragment k>0 only continues the run in progress), with ANY sequence numbers below 4, the NCP that parses the
+   byte stream by the format (all checksums and lengths), drops ACK frames and concatenates first..last fragments
+   receives exactly the (command header, parameter bytes) of the requests whose last fragment was written, in order. *)
+Theorem C11_ncp_receives_exactly_the_completed_messages : forall (msg : nat -> N * list N) its cur',
+  (forall r k q, In (IFrag r k q) its -> valid msg r) -> sched_run msg None its = Some cur' ->
+  snd (ncp (wire msg its)) = map (msg_of msg) (completed msg its) /\ P msg cur' (fst (ncp (wire msg its))).
+Proof. exact ncp_receives_exactly_the_completed_messages. Qed.
+Print Assumptions C11_ncp_receives_exactly_the_completed_messages.
+
+(* (2) From the request state machine: for EVERY event history (concurrent blocking / non-blocking requests, ACKs with
+   any number, responses, silence, cancellations, resets) during which the transport stays open, with every issue event
+   announcing the number of fragments the transmitter makes of that request's message, the bytes the machine writes
+   (data frames OW rid k seq = fragment k stamped seq; acknowledgement frames OK seq) are such a schedule - by the lock
+   discipline - and so the NCP receives every fully written request intact, in order, and nothing else. *)
+Theorem C11_requests_reach_the_ncp_intact : forall (msg : nat -> N * list N) evs,
+  (forall rid cls b n t, In (EIssue rid cls b n t) evs -> valid msg rid /\ n = nfr msg rid) ->
+  transport_open (run_events evs) = true ->
+  let its := items_of (log (run_events evs)) in
+  snd (ncp (wire msg its)) = map (msg_of msg) (completed msg its).
+Proof. exact requests_reach_the_ncp_intact. Qed.
+Print Assumptions C11_requests_reach_the_ncp_intact.
+
+(* the hypotheses are satisfiable by a non-trivial history: a 2-fragment and a 1-fragment request, concurrently *)
+Definition ex_msg (r : nat) : N * list N := if Nat.eqb r 1 then (0x00030100, repeat 7 300%nat) else (0x00010200, [1; 2; 3]).
+Definition ex_evs : list event := [EIssue 1 10 false 2 5000; EIssue 2 11 false 1 5000; EAck 0; EAck 1; EAck 2].
+Example C11_end_to_end_instance :
+  nfr ex_msg 1 = 2%nat /\ nfr ex_msg 2 = 1%nat /\ transport_open (run_events ex_evs) = true /\
+  completed ex_msg (items_of (log (run_events ex_evs))) = [1%nat; 2%nat] /\
+  snd (ncp (wire ex_msg (items_of (log (run_events ex_evs))))) = [RMsg 0x00030100 (repeat 7 300%nat); RMsg 0x00010200 [1; 2; 3]].
+Proof. vm_compute. repeat split; reflexivity. Qed.
 
 Example C11_instance :
   discipline (log (run_events [EIssue 1 10 false 2 5000; EIssue 2 11 false 1 5000; EAck 0; EAck 1; EAck 2])) = true /\
